@@ -1,9 +1,11 @@
 """C18 -- generic property casting preserves values."""
+import copy
 import json
 import re
 from ipaddress import IPv4Network, IPv6Network
 
 import core
+import wire
 import generic_oracle as go
 
 ID = "C18"
@@ -89,6 +91,14 @@ RECOGNISED = [
 NEAR_RECOGNISED = [
     {"Key": "k", "Value": "v", "c": 1}, {"Key": "k"}, {"Effect": "Maybe"}, {"IpProtocol": "tcp", "Cidr": "x"}, {"StringEquals": "x"},
     {"Statement": [{"Effect": "x"}]}, {"PolicyName": "n", "PolicyDocument": {"Statement": []}, "x": 1}, {"PolicyName": "n"},
+]
+MODEL_SHAPED = [
+    {"Effect": "Allow", "Sid": 7}, {"Effect": "Deny", "Resource": [1, 2.5]}, {"Effect": "Allow", "Action": ["s3:*"], "Resource": "*", "Sid": True},
+    {"PolicyName": 12, "PolicyDocument": {"Statement": []}}, {"IpProtocol": 6, "Description": 1.5}, {"IpProtocol": "tcp", "FromPort": "22", "ToPort": 22.0},
+    {"Key": 5, "Value": "v"}, {"Key": "k", "Value": True}, {"Key": "k", "Value": 2.5}, {"Key": "k", "Value": None},
+    {"Statement": [{"Effect": "Allow", "Sid": "s", "Action": 5}]}, {"Version": 20121017, "Statement": []},
+    {"StringEquals": {"aws:username": 5}}, {"NumericEquals": {"k": "7"}}, {"Bool": {"k": 1}}, {"DateLessThan": {"k": 1577836800}},
+    {"AWS": 123456789012}, {"Service": ["ec2.amazonaws.com", 1]},
 ]
 FUNCTIONS = [{"Ref": "x"}, {"Fn::Sub": "a-${b}"}, {"Fn::GetAtt": ["a", "b"]}, {"Fn::Join": ["", ["a", {"Ref": "b"}]]}, {"Condition": "c"}]
 NEAR_FUNCTIONS = [{"Fn::Foo": "x"}, {"Ref": "x", "b": 1}, {"ref": "x"}, {"Fn::Transform": {"Name": "n"}}]
@@ -323,8 +333,166 @@ class DumpSurface(CastSurface):
         return go.present_dump(res.Properties.P, res.model_dump()["Properties"]["P"])
 
 
-CAST, DUMP = CastSurface(), DumpSurface()
-SURFACES = {s.name: s for s in (CAST, DUMP)}
+def _is_numeric_text(a):
+    try:
+        float(a)
+        return True
+    except (TypeError, ValueError):
+        return False
+
+
+def same_thing(a, b, path=()):
+    """the property, read directly on the implementation's answer: `b` (a member of model_dump()) denotes the same thing as the JSON
+    value `a` it was made from.  None when it does, else (kind, path, a, b).  Independent of the casting model AND of the recogniser
+    oracle: it also looks INSIDE objects the library recognises as property models (Tag, Statement, ...), where the model of
+    stage 1 only compares with the library's own union (seeded change C18-r4m2: every property model coerced numbers to text)."""
+    import base64
+    import datetime
+    import ipaddress
+
+    from pydantic import TypeAdapter
+
+    def bad(kind):
+        return (kind, list(path), wire.jsonable(a), wire.jsonable(go.plain(b)) if not isinstance(b, (dict, list)) else "...")
+
+    tag_shaped = len(path) >= 1 and path[-1] in ("Key", "Value") and path[-1] != "?"
+    if a is None:
+        return None if b is None else bad("null-changed")
+    if isinstance(a, bool):
+        if isinstance(b, bool) and a == b:
+            return None
+        return bad("tag-member-became-text" if isinstance(b, str) and b == str(a) and tag_shaped else "boolean-changed")
+    if isinstance(a, (int, float)):
+        if type(a) is type(b) and a == b:
+            return None
+        if isinstance(a, float) and isinstance(b, int) and not isinstance(b, bool) and a == b:
+            return None          # an integral number is the same number as an integer (cast_ok's reading, DESIGN C18)
+        if isinstance(b, datetime.datetime) and any(isinstance(k, str) and "Date" in k for k in path[-2:-1]):
+            # under a Date* condition operator a number IS a timestamp (epoch seconds, IAM's own reading of that position)
+            try:
+                if datetime.datetime.fromtimestamp(a, datetime.timezone.utc) == b:
+                    return None
+            except Exception:
+                pass
+        if isinstance(b, str) and b in (str(a), repr(a)):
+            return bad("tag-member-became-text" if tag_shaped else "number-became-text")
+        return bad("number-changed")
+    if isinstance(a, str):
+        if isinstance(b, str):
+            if a == b or (path and path[-1] == "Effect" and b == a.capitalize()):
+                return None
+        elif isinstance(b, bool):
+            if a.lower() in ("true", "false") and b == (a.lower() == "true"):
+                return None
+        elif isinstance(b, int):
+            try:
+                if TypeAdapter(int).validate_python(a) == b:
+                    return None
+            except Exception:
+                pass
+        elif isinstance(b, datetime.datetime):
+            try:
+                if not _is_numeric_text(a) and TypeAdapter(datetime.datetime).validate_python(a) == b:
+                    return None
+            except Exception:
+                pass
+        elif isinstance(b, datetime.date):
+            try:
+                if not _is_numeric_text(a) and TypeAdapter(datetime.date).validate_python(a) == b:
+                    return None
+            except Exception:
+                pass
+        elif isinstance(b, (ipaddress.IPv4Network, ipaddress.IPv6Network)):
+            try:
+                if not _is_numeric_text(a) and ipaddress.ip_network(a, strict=False) == b:
+                    return None
+            except Exception:
+                pass
+        elif isinstance(b, bytes):
+            try:
+                if base64.b64decode(a) == b:
+                    return None
+            except Exception:
+                pass
+        try:
+            decoded = json.loads(a)
+        except Exception:
+            return bad("text-changed")
+        if isinstance(decoded, str):
+            return None if decoded == b else same_thing(decoded, b, path + ("<json>",))
+        if isinstance(decoded, float) and isinstance(b, int) and not isinstance(b, bool) and decoded == b:
+            return None          # "1e3" -> 1000: pydantic's liberal integer literal (counted conv-liberal by the cast surfaces)
+        return same_thing(decoded, b, path + ("<json>",))
+    if isinstance(a, list):
+        if not isinstance(b, list) or len(a) != len(b):
+            return bad("array-shape")
+        for i, (x, y) in enumerate(zip(a, b)):
+            r = same_thing(x, y, path + (i,))
+            if r:
+                return r
+        return None
+    if isinstance(a, dict):
+        if not isinstance(b, dict):
+            return bad("object-shape")
+        used = set()
+        for k, v in a.items():
+            kk = k if k in b else k.replace(":", "") if k.replace(":", "") in b else None
+            if kk is None:
+                return ("member-lost", list(path) + [k], wire.jsonable(v), None)
+            used.add(kk)
+            sub = path + (k,) if set(a) == {"Key", "Value"} or k not in ("Key", "Value") else path + ("?",)
+            r = same_thing(v, b[kk], sub)
+            if r:
+                return r
+        for k, v in b.items():
+            if k not in used and v is not None:
+                return ("member-added", list(path) + [k], None, wire.jsonable(go.plain(v)) if not isinstance(v, (dict, list)) else "...")
+        return None
+    return bad("unknown-input")
+
+
+class PreserveSurface(CastSurface):
+    """impl-only: model_dump() of the cast property against the JSON value it came from, by the words of the property"""
+    name = "same_thing(v, parse(t).Resources[r].model_dump()[Properties][P])"
+    theorem = "C18_preserves / C18_shape (the property read on the implementation's own answer, recognised property models included)"
+
+    def observe(self, x):
+        from pycfmodel import parse
+        res = parse({"Resources": {"r": {"Type": "Custom::Unmodelled", "Properties": {"P": x["v"]}}}}).Resources["r"]
+        return res.model_dump()["Properties"]["P"]
+
+    def impl(self, x):
+        r = super().impl(x)
+        if r[0] == "OK":
+            d = same_thing(x["v"], r[1])          # outside impl_call: an error in the comparison itself must surface, not be forgiven
+            r = ("OK", "same" if d is None else {"differs": d[0], "at": d[1], "from": d[2], "to": d[3]})
+        self._last = (json.dumps(x, sort_keys=True, default=str), r)
+        return r
+
+    def model(self, rn, x):
+        if self.declined(x):
+            return ("EXC", "EUndefined", "")
+        return ("OK", "same")
+
+    def agree(self, x, i, m):
+        if i[0] == "EXC":
+            return i[1] == "EValidation"      # parse refusing the template is C19's subject; anything else is not forgiven here
+        return i[1] == "same"
+
+    def tags(self, x):
+        if self._last[0] == json.dumps(x, sort_keys=True, default=str) and self._last[1][0] == "OK" and isinstance(self._last[1][1], dict):
+            kind = self._last[1][1]["differs"]
+            if kind == "tag-member-became-text":
+                return {"tag-shaped-object", "number-or-boolean-member"}      # known finding F28: exactly this construct
+            return {"preserve:" + kind}
+        return {"preserve"}
+
+    def nontrivial(self, x, i, m):
+        return isinstance(x.get("v"), (dict, list)) and len(json.dumps(x["v"], default=str)) > 20
+
+
+CAST, DUMP, PRESERVE = CastSurface(), DumpSurface(), PreserveSurface()
+SURFACES = {s.name: s for s in (CAST, DUMP, PRESERVE)}
 
 
 def corpus():
@@ -342,6 +510,14 @@ def cases(rng, tier, shard, nshards):
             for v in fam:
                 yield CAST, {"v": v}
     n = {"quick": 4000, "thorough": 60000}[tier]
+    # objects shaped like the property models, with numbers / booleans where the models expect text, and the other way round
+    for fam in (RECOGNISED, NEAR_RECOGNISED, MODEL_SHAPED):
+        for j, v in enumerate(fam):
+            if j % nshards == shard:
+                yield PRESERVE, {"v": copy.deepcopy(v)}
+                yield PRESERVE, {"v": {"Nested": [copy.deepcopy(v), {"Other": copy.deepcopy(v)}]}}
     for k in range(n):
         v = value(rng)
         yield (CAST if k % 4 else DUMP), {"v": v}
+        if k % 3 == 0:
+            yield PRESERVE, {"v": v}
